@@ -1,9 +1,11 @@
 import groups_vm
 import groups_gen
+import groups_parse
 
 
 def all_groups():
     gs = []
     gs += groups_vm.groups()
     gs += groups_gen.groups()
+    gs += groups_parse.groups()
     return gs
